@@ -36,6 +36,9 @@ type ServiceSpec struct {
 	Annotations Annotations
 
 	parentSrc *ast.ServiceReference
+
+	// linking is true while Link is running for this service.
+	linking bool
 }
 
 func compileService(file string, src *ast.Service) (*ServiceSpec, error) {
@@ -115,8 +118,18 @@ func resolveService(src ast.ServiceReference, scope Scope) (*ServiceSpec, error)
 // Link resolves any references made by the given service.
 func (s *ServiceSpec) Link(scope Scope) error {
 	if s.linked() {
+		if s.linking {
+			// We got back to this service while resolving its ancestors.
+			return compileError{
+				Target: s.Name,
+				Reason: serviceCycleError{Name: s.Name},
+			}
+		}
 		return nil
 	}
+
+	s.linking = true
+	defer func() { s.linking = false }()
 
 	if s.parentSrc != nil {
 		parent, err := resolveService(*s.parentSrc, scope)
